@@ -4,5 +4,6 @@ let () =
   | _ :: ("c04" | "c07" | "c12" | "c08" as m) :: file :: _ -> C04.run m file
   | _ :: "c05" :: file :: _ -> C05.run file
   | _ :: "c11" :: file :: _ -> C11.run file
+  | _ :: "c15" :: file :: _ -> C15.run file
   | _ :: ("c06" | "c10" | "c13" as m) :: file :: _ -> Pg.run m file
   | _ -> prerr_endline "usage: oracle <property> <trace>"; exit 2
